@@ -129,6 +129,126 @@ def rule_totality(eng, rep, rule="C12-2.totality-every-loop-is-bounded", funcs=L
         rep.ok(rule, "call graph", "no recursion among the %d functions reachable from the sub-problem routines" % len(reach))
 
 
+def _mask_of(sub):
+    """`v[M == 0]` / `v[M != 0]` -> (v, M, 'eq'|'ne', const) for a boolean-mask subscript on a plain local, else None"""
+    if isinstance(sub, ast.Subscript) and isinstance(sub.value, ast.Name) and isinstance(sub.slice, ast.Compare) and len(sub.slice.ops) == 1 \
+            and isinstance(sub.slice.ops[0], (ast.Eq, ast.NotEq)) and isinstance(sub.slice.left, ast.Name):
+        c = const_value(sub.slice.comparators[0])
+        if c is not None:
+            return sub.value.id, sub.slice.left.id, "eq" if isinstance(sub.slice.ops[0], ast.Eq) else "ne", c
+    return None
+
+
+def rule_no_stale_entries_under_a_changed_mask(eng, rep, rule="C12-4.work-vectors-are-rebuilt-when-the-active-set-changes", funcs=("trust_region.trsbox", "trust_region.alt_trust_step")):
+    """A work vector that embeds the free components of another vector (`s = zeros; s[xbdi == 0] = ...`, never read on its own right-hand side) is only meaningful with
+    zeros off the mask.  Between a change of the mask (a variable gets fixed: `xbdi[i] = ...`) and the next use of the whole vector (H.dot(s)) its off-mask entries must
+    be defined again -- a fresh allocation, a full overwrite, or a store under the complementary mask -- or a component fixed in the meantime keeps the entry written
+    while it was still free, and H.s, hence gnew = g + H d, is wrong."""
+    ninst = 0
+    for fid in funcs:
+        fi = eng.fn(fid)
+        cfg = eng.cfg(fi)
+        stores = {}      # v -> [(node, M, op, const, stmt)]
+        for n, d in cfg.g.nodes(data=True):
+            st = d["ast"]
+            if d["kind"] == "stmt" and isinstance(st, ast.Assign) and len(st.targets) == 1:
+                mk = _mask_of(st.targets[0])
+                if mk:
+                    stores.setdefault(mk[0], []).append((n, mk[1], mk[2], mk[3], st))
+        for v, lst in sorted(stores.items()):
+            # on-mask stores: those whose mask selects the free components; the mask is the one used by the stores that never read v
+            embedding = [x for x in lst if v not in [m.id for m in ast.walk(x[4].value) if isinstance(m, ast.Name)]]
+            selfref = [x for x in lst if x not in embedding]
+            if not embedding:
+                continue
+            # stores under the complementary mask with a constant right-hand side re-define the off-mask part
+            keyset = set((M, op, c) for (_n, M, op, c, _s) in embedding if not isinstance(_s.value, ast.Constant))
+            if len(keyset) != 1:
+                if keyset:
+                    rep.unknown(rule, eng.where(fi), "`%s` is stored under several different masks %s" % (v, sorted(keyset)))
+                continue
+            (M, op, c) = keyset.pop()
+            onmask = [x for x in embedding if (x[1], x[2], x[3]) == (M, op, c) and not isinstance(x[4].value, ast.Constant)]
+            if selfref and not all((x[1], x[2], x[3]) == (M, op, c) for x in selfref):
+                continue
+            if selfref:
+                continue        # a vector updated from itself under the mask keeps its off-mask entries on purpose (the step d itself)
+            offdefs = set()
+            for n, d in cfg.g.nodes(data=True):
+                st = d["ast"]
+                if d["kind"] != "stmt":
+                    continue
+                if isinstance(st, ast.Assign):
+                    for t in st.targets:
+                        if isinstance(t, ast.Name) and t.id == v:
+                            offdefs.add(n)
+                        elif isinstance(t, (ast.Tuple, ast.List)) and v in [e.id for e in t.elts if isinstance(e, ast.Name)]:
+                            offdefs.add(n)
+                        elif isinstance(t, ast.Subscript) and isinstance(t.value, ast.Name) and t.value.id == v:
+                            if isinstance(t.slice, ast.Slice) and t.slice.lower is None and t.slice.upper is None:
+                                offdefs.add(n)          # v[:] = ...
+                            mk = _mask_of(t)
+                            if mk and mk[1] == M and mk[3] == c and mk[2] != op:
+                                offdefs.add(n)          # the complementary mask
+                elif isinstance(st, ast.Expr) and isinstance(st.value, ast.Call) and isinstance(st.value.func, ast.Attribute) and st.value.func.attr == "fill" \
+                        and isinstance(st.value.func.value, ast.Name) and st.value.func.value.id == v:
+                    offdefs.add(n)
+                elif isinstance(st, ast.AugAssign) and isinstance(st.target, ast.Name) and st.target.id == v and isinstance(st.op, ast.Mult) and const_value(st.value) == 0:
+                    offdefs.add(n)
+            maskmods = []
+            for n, d in cfg.g.nodes(data=True):
+                st = d["ast"]
+                if d["kind"] == "stmt" and isinstance(st, (ast.Assign, ast.AugAssign)):
+                    for t in (st.targets if isinstance(st, ast.Assign) else [st.target]):
+                        root = t
+                        while isinstance(root, ast.Subscript):
+                            root = root.value
+                        if isinstance(root, ast.Name) and root.id == M and n not in offdefs:
+                            maskmods.append(n)
+            wholeuses = []
+            for n, d in cfg.g.nodes(data=True):
+                node = d["ast"]
+                if node is None or d["kind"] not in ("stmt", "cond", "foriter"):
+                    continue
+                parents = {}
+                for par in ast.walk(node):
+                    for ch in ast.iter_child_nodes(par):
+                        parents[id(ch)] = par
+                for sub in ast.walk(node):
+                    if isinstance(sub, ast.Name) and sub.id == v and isinstance(sub.ctx, ast.Load):
+                        par = parents.get(id(sub))
+                        if isinstance(par, ast.Subscript) and par.value is sub:
+                            continue
+                        wholeuses.append(n)
+            ninst += 1
+            hit = None
+            for m in maskmods:
+                for (ms, _M, _op, _c, mst) in onmask:
+                    p1 = cfg.path_avoiding_flag_aware(m, ms, offdefs) if m != ms else [m]
+                    if p1 is None:
+                        continue
+                    for u in wholeuses:
+                        p2 = cfg.path_avoiding_flag_aware(ms, u, offdefs) if u != ms else None
+                        if p2 is not None:
+                            hit = (m, ms, u, p1 + p2[1:])
+                            break
+                    if hit:
+                        break
+                if hit:
+                    break
+            site = eng.where(fi, onmask[0][4])
+            if hit:
+                m, ms, u, path = hit
+                rep.bad(rule, eng.where(fi, cfg.ast_of(ms)), "%s|stale-entries|%s" % (fid, v),
+                        "`%s` is written only where `%s %s %s` and then used as a whole (`%s`), but on a path from `%s` the entries outside that mask are never defined again: "
+                        "a component fixed in the meantime keeps the value written while it was free" % (v, M, "==" if op == "eq" else "!=", c, short(cfg.ast_of(u), 40), short(cfg.ast_of(m), 30)),
+                        path=cfg.describe_path(path))
+            else:
+                rep.ok(rule, site, "`%s`: between every change of `%s` and the next whole use the entries off the mask are defined again (%d mask changes, %d masked stores, %d whole uses)"
+                       % (v, M, len(maskmods), len(onmask), len(wholeuses)), nontrivial=bool(maskmods and wholeuses))
+    rep.require_count(rule, "work vectors embedded under an active-set mask", ninst, 1)
+
+
 def run(eng, rep):
     rep.explain("C12 (two structural clauses): every return of trsbox (Python path) and alt_trust_step delivers a step that is the result of d_within_bounds "
                 "(reaching definitions on each return, T2), d_within_bounds is clamp(xopt+d) + pinning + (- xopt); every loop of the sub-problem routines is a "
@@ -137,5 +257,6 @@ def run(eng, rep):
     rep.not_decided += ["||d|| <= delta(1+1e-8), model decrease, Cauchy decrease, gnew = g + H d (numerical)", "the optional Fortran back end (outside the analysed source)"]
     rule_final_clipping(eng, rep)
     rule_totality(eng, rep)
+    rule_no_stale_entries_under_a_changed_mask(eng, rep)
     from .mirrorrule import rule_mirror
     rule_mirror(eng, rep, 'C12-3.lower-and-upper-bound-handling-are-reflections', ['trust_region.alt_trust_step', 'trust_region.trsbox', 'trust_region.d_within_bounds'])
